@@ -11,6 +11,8 @@
 #include <map>
 #include <sstream>
 #include <variant>
+#include <unistd.h>
+#include <sys/wait.h>
 
 using namespace lug;
 using namespace lug::language;
@@ -197,8 +199,45 @@ static void finish_run(int caseno, std::string const& tag, std::string const& in
 	std::printf("\n");
 }
 
+// context for the terminate handler (a noexcept function threw: the process would be aborted)
+static int g_caseno = 0;
+static std::string g_tag, g_inhex;
+static bool g_in_child = false;
+static void on_terminate()
+{
+	std::printf("case %d run %s %s res=terminate steps=%zu\n", g_caseno, g_tag.c_str(), g_inhex.c_str(), g_steps);
+	std::fflush(stdout);
+	_exit(g_in_child ? 0 : 3);
+}
+
+template <class Parser, class Feed>
+static void run_one_inproc(int caseno, std::string const& tag, std::string const& inhex, grammar const& gr, std::vector<std::string>& log, Feed feed);
+
+static bool g_fork = true;
+// every run happens in a forked child so that a crash (std::terminate, sanitizer abort) costs one line, not the batch
 template <class Parser, class Feed>
 static void run_one(int caseno, std::string const& tag, std::string const& inhex, grammar const& gr, std::vector<std::string>& log, Feed feed)
+{
+	g_caseno = caseno; g_tag = tag; g_inhex = inhex;
+	if (!g_fork) { run_one_inproc<Parser>(caseno, tag, inhex, gr, log, feed); return; }
+	std::fflush(stdout);
+	pid_t const pid = fork();
+	if (pid == 0) {
+		g_in_child = true;
+		run_one_inproc<Parser>(caseno, tag, inhex, gr, log, feed);
+		std::fflush(stdout);
+		_exit(0);
+	}
+	int st = 0;
+	waitpid(pid, &st, 0);
+	if (WIFSIGNALED(st) || (WIFEXITED(st) && WEXITSTATUS(st) != 0)) {
+		std::printf("case %d run %s %s res=crashed status=%d\n", caseno, tag.c_str(), inhex.c_str(), WIFSIGNALED(st) ? 1000 + WTERMSIG(st) : WEXITSTATUS(st));
+		std::fflush(stdout);
+	}
+}
+
+template <class Parser, class Feed>
+static void run_one_inproc(int caseno, std::string const& tag, std::string const& inhex, grammar const& gr, std::vector<std::string>& log, Feed feed)
 {
 	log.clear();
 	environment e;
@@ -223,6 +262,8 @@ int main(int argc, char** argv)
 {
 	std::size_t budget = 200000;
 	for (int i = 1; i < argc; ++i) { std::string a = argv[i]; if (a == "--trace") g_trace = true; else if (a.rfind("--budget=", 0) == 0) budget = std::stoul(a.substr(9)); }
+	for (int i = 1; i < argc; ++i) if (std::string(argv[i]) == "--nofork") g_fork = false;
+	std::set_terminate(&on_terminate);
 	lug_verif_step = &step_hook;
 	g_budget = budget;
 	std::string line; int caseno = 0;
